@@ -3,7 +3,8 @@
 Oracle: rt.structure_helpers.meta_oracle -- node count (every grammar node, lists and tuples transparent),
 distance in edges to the deepest terminal (base values and field-less nodes are terminals), weighted size (sum of
 the distances of all nodes of the subtree), type index (exactly the sub-nodes of each production type, the node
-itself included).  A field holding an empty list is accepted with either 0 or 1 edges.
+itself included).  A node that has fields is at distance >= 1: a field holding an empty list counts one edge
+(a production with fields is not a terminal, even when its lists happen to be empty).
 """
 from __future__ import annotations
 
@@ -39,7 +40,7 @@ def norm(o):
 
 def explain(n, obs):
     """[] if the labels equal the oracle; else the names of the deviations that reproduce them (or ['other'])."""
-    for e in (1, 0):
+    for e in (1,):
         if norm(meta_oracle(n, empty_list_dist=e)) == obs:
             return []
     for r in (1, 2, 3, 4):
@@ -47,7 +48,7 @@ def explain(n, obs):
             kw = {}
             for _, k in combo:
                 kw.update(k)
-            for e in (1, 0):
+            for e in (1,):
                 if norm(meta_oracle(n, empty_list_dist=e, **kw)) == obs:
                     return [name for name, _ in combo]
     return ["other"]
